@@ -67,6 +67,16 @@ func main() {
 			}
 		}
 		fmt.Printf("stats: %+v\n", in.Stats)
+	case "steps":
+		c := &checks.Ctx{Repo: "/repo", Harness: "/verif/harness", VerifDir: "/verif", Tier: "quick", Start: time.Now()}
+		if err := c.Load(); err != nil {
+			fmt.Fprintln(os.Stderr, err)
+			os.Exit(2)
+		}
+		if err := checks.DebugSteps(c, os.Args[2], 1); err != nil {
+			fmt.Fprintln(os.Stderr, err)
+			os.Exit(2)
+		}
 	default:
 		os.Exit(checks.Main(os.Args[1:]))
 	}
